@@ -1,0 +1,16 @@
+//go:build verif
+
+package sleep
+
+// verifYieldHook, when set by a verification harness, is called at the named
+// scheduling points (so that the harness can hold a goroutine there).
+var verifYieldHook func(point string)
+
+// VerifSetYieldHook installs (or, with nil, removes) the scheduling-point hook.
+func VerifSetYieldHook(f func(point string)) { verifYieldHook = f }
+
+func verifYieldSleepcmd(point string) {
+	if h := verifYieldHook; h != nil {
+		h(point)
+	}
+}
